@@ -304,3 +304,34 @@ def r8(cx):
     # consumers: orphan clean-up builds its live set from the full enumeration
     ob = f.body("CoreInner::cleanup_orphaned_sst_files")
     cx.check(f.may_reach(ob.id, "LevelManifest::get_all_tables") or f.may_reach(ob.id, "LevelManifest::iter"), "orphan clean-up takes the live set from the manifest enumeration", "orphan-live-set", ob.where())
+
+
+@rule("C07", "C07.R9", "a table written under one valid configuration opens under another: configuration-dependent lookups in the meta index never assert")
+def r9(cx):
+    """Table::new looks up optional parts of a table (the filter block) in the meta index under a name that comes from the
+    reader's OPTIONS (`filter.<policy name>`).  A seek in the meta index lands on the next greater key when the name is
+    absent; comparing the found key with the configured name must yield `absent`, not a panic: a table written with
+    filter_policy = None (or another policy) is a state the store produced under a valid configuration.  Decided: in the
+    functions Table::new reaches, no assert/panic compares a key read from a block with a value derived from an Options
+    field."""
+    f = cx.f
+    tb = f.body("Table::new")
+    reach = f.reach(tb.id) | {tb.id}
+    n = 0
+    for bid in sorted(reach):
+        b = f.bodies[bid]
+        if not b.file.endswith("sstable/table.rs"):
+            continue
+        for c in b.calls:
+            if c.bb not in b.live or not ("assert_failed" in c.primary or "panic" in c.primary.split("::")[-1]):
+                continue
+            srcs = [origin_of_operand(b, a, through_calls="all") for a in c.args if a[0] in ("c", "m")]
+            from_block = any(any(x.primary.split("::")[-1] in ("key", "user_key") for x in o.calls) for o in srcs)
+            from_opts = any(any(nm in ("filter_policy",) or own.endswith("Options") for own, nm in o.fields) for o in srcs)
+            if not from_block:
+                continue
+            n += 1
+            cx.check(not from_opts, "`%s`: no assertion compares a meta-index key with a configured name" % b.id, "config-dependent-assert|%s" % b.name, c.where(),
+                     "`%s` asserts that the key found in the meta index equals a name derived from the reader's Options: a table written without that part (filter_policy = None, "
+                     "another policy) makes Tree::new PANIC instead of opening the table without a filter" % b.id)
+    cx.floor("assertions on meta-index keys reachable from Table::new", n, 1)
